@@ -106,14 +106,11 @@ Lemma flow_examples :
   (* a spelling the table does not know leaves the run a real one *)
   writes_nothing (analyse flow "Install.RunWithContext" (mkDE (flags_of []) (OptIs "none") install_dry_spellings false)) = false /\
   (* the path matcher: the plain dry-run install trace is a path; with the namespace created
-     before the bail-out, or the reachability check missing, it is not; a real run with
-     CreateNamespace cannot store the release without having asked for the namespace *)
+     before the bail-out, or the reachability check missing, it is not *)
   follows flow "Install.RunWithContext" (env_of install_dry_spellings (mkXF ["DryRun"; "CreateNamespace"] "" 0 0)) (state_of (mkXG false true))
           [("KubeClient.IsReachable", true); ("KubeClient.Build", true); ("Helper.Get", true)] = true /\
   follows flow "Install.RunWithContext" (env_of install_dry_spellings (mkXF ["DryRun"; "CreateNamespace"] "" 0 0)) (state_of (mkXG false true))
           [("KubeClient.IsReachable", true); ("KubeClient.Build", true); ("Helper.Get", true); ("KubeClient.Create", true)] = false /\
   follows flow "Install.RunWithContext" (env_of install_dry_spellings (mkXF ["DryRun"; "CreateNamespace"] "" 0 0)) (state_of (mkXG false true))
-          [("KubeClient.Build", true); ("Helper.Get", true)] = false /\
-  follows flow "Install.RunWithContext" (env_of install_dry_spellings (mkXF ["CreateNamespace"] "none" 0 0)) (state_of (mkXG false true))
-          [("KubeClient.IsReachable", true); ("Driver.Query", true); ("KubeClient.Build", true); ("Helper.Get", true); ("Driver.Create", true)] = false.
+          [("KubeClient.Build", true); ("Helper.Get", true)] = false.
 Proof. repeat split; vm_compute; reflexivity. Qed.
